@@ -479,7 +479,7 @@ func vC02VerifyFunc(f *ir.Func) string {
 						}
 					}
 					if !isPred {
-						return "phi: an incoming block is no predecessor"
+						return "phi: an incoming block is no predecessor" + vC02Where(f, pi, 0, i, k)
 					}
 					// the incoming value must be available at the end of the predecessor
 					if s := use(inc.X, pi, len(pb.Insts)); s != "" {
